@@ -37,6 +37,18 @@ Theorem c20_paused_keeps_checkpoint :
 Proof. intros S R G sch c. exact (paused_keeps_checkpoint sch c). Qed.
 Print Assumptions c20_paused_keeps_checkpoint.
 
+(* start_trial copies the source checkpoint BEFORE the job is scheduled: every launch of a job
+   (backend._schedule) is immediately preceded by start_trial of a fresh trial, or by
+   start_trial(checkpoint_trial_id=j) AND copy_checkpoint(j, t), or by resume_trial(t). *)
+Theorem c20_copy_before_schedule :
+  forall (S R G : Type) (sch : scheduler S R G) (c : cfg) st its pre t post,
+    run sch c st its = pre ++ ESchedule t :: post ->
+    (exists p, pre = p ++ [EStart t None]) \/
+    (exists p j, pre = p ++ [EStart t (Some j); ECopy j t]) \/
+    (exists p, pre = p ++ [EResume t]).
+Proof. intros S R G sch c. exact (copy_before_schedule sch c). Qed.
+Print Assumptions c20_copy_before_schedule.
+
 (* PBT (pbt_sched = PopulationBasedTraining with the fix patches/F-C20-1.diff: _suggest
    re-draws a clone source that was stopped after the clone decision, or starts a fresh
    configuration).  For every schedule and batch order, the checkpoint a clone is started
@@ -192,8 +204,8 @@ Example c20_example_promo :
   run promo_sched c (init promo0)
       [ {| reports := []; completed := []; failed := []; sugg := [None; None]; spec_choice := [] |};
         {| reports := [(0%Z, PAUSE); (1%Z, STOP)]; completed := []; failed := []; sugg := [Some 0%Z]; spec_choice := [] |} ]
-  = [EStart 0 None; EStart 1 None; EDecision 0 PAUSE; EPause 0; EDecision 1 STOP; EStop 1; EDelete 1 WStop;
-     EResume 0; EStopAll; EStop 0; EDelete 0 WStopAll; EDelete 0 WStopAll; EDelete 1 WStopAll].
+  = [EStart 0 None; ESchedule 0; EStart 1 None; ESchedule 1; EDecision 0 PAUSE; EPause 0; EDecision 1 STOP; EStop 1;
+     EDelete 1 WStop; EResume 0; ESchedule 0; EStopAll; EStop 0; EDelete 0 WStopAll; EDelete 0 WStopAll; EDelete 1 WStopAll].
 Proof. vm_compute. reflexivity. Qed.
 
 Example c20_example_sync :
